@@ -955,6 +955,26 @@ func (c *ctx) runZkSystem(g *zkGen, d *zkDef, keys []*zkKeys) {
 				jobs = append(jobs, zkMaskJobs(g, d, inst)...)
 			}
 		}
+		// (d) false-statement provers: one component of a true (statement, witness) pair replaced, proof generated honestly
+		if first || c.thorough() {
+			var other *zkKeys
+			if len(keys) > 1 {
+				other = keys[(ki+1)%len(keys)]
+			}
+			nBase := 1
+			if c.thorough() {
+				nBase = 3
+			}
+			for b := 0; b < nBase; b++ {
+				class := classes[len(classes)-1-b%len(classes)]
+				if d.degenerate[class] {
+					continue
+				}
+				base := d.gen(g, k, class)
+				base.keys, base.class = k, class
+				jobs = append(jobs, zkFalseJobs(g, d, k, other, base, true)...)
+			}
+		}
 		// phase 2: evaluate
 		c.zkBatch(d, k, jobs)
 		var valid []zkTriple
